@@ -74,13 +74,16 @@ def cost_of(kind):
     return {'none': None, 'alpha': lambda al, k: 1.0 + 3.0 * sum(al), 'small': lambda al, k: 0.2 + 0.1 * sum(al),
             'big': lambda al, k: 40.0 + 25.0 * sum(al),
             # (absurdly) expensive evaluations: every error indicator (relative change / cost) is far below 1e-8
-            'huge': lambda al, k: 2.0e9 + 1.0e9 * sum(al)}[kind]
+            'huge': lambda al, k: 2.0e9 + 1.0e9 * sum(al),
+            # a cost that differs from call to call (a measured run time)
+            'percall': lambda al, k: 1.5 + 3.0 * sum(al) + 0.05 * (k % 7)}[kind]
 
 
 def build_system(spec, listing=None, name='sys', root_dir=None, vectorized=True, recorders=None, model_wrap=None):
     vars_ = {}
-    for v in spec['exo']:
-        vars_[v] = Variable(v, domain=(0.0, 1.0))
+    for i_, v in enumerate(spec['exo']):
+        # (different categories: nothing that is learned may depend on them, nor on the order of a set of them)
+        vars_[v] = Variable(v, domain=(0.0, 1.0), category=['calibration', 'design', 'operating'][i_ % 3])
     for c in spec['comps']:
         vars_[c['out']] = Variable(c['out'], domain=tuple(spec.get('coupling_domain', (-1.0, 3.0))))
     comps = []
